@@ -225,6 +225,37 @@ theorem orient_spec {s : St} (h : CInv s) (u v : TNode) :
     obtain ⟨k1, k2⟩ := key _ _ hs.1 hs.2
     simp only [orientCpdag, hund, Bool.not_true, Bool.false_eq_true, if_false, k1, k2]
 
+/-- an undirected edge between `a` and `b`: both are nodes of the graph inside the window -/
+theorem hasUnd_facts {s : St} (h : CInv s) {a b : TNode} (hab : hasUnd (layerEdges s 1) a b = true) :
+    a.2 ≤ 0 ∧ b.2 ≤ 0 ∧ lag a ≤ s.maxLag ∧ lag b ≤ s.maxLag ∧
+      ((toNode a, toNode b) ∈ layerEdges s 1 ∨ (toNode b, toNode a) ∈ layerEdges s 1) := by
+  obtain ⟨_, ⟨hEU, _, _, _⟩⟩ := h.layerInv
+  simp only at hEU
+  have hfacts : a.2 ≤ 0 ∧ b.2 ≤ 0 ∧
+      ((toNode a, toNode b) ∈ layerEdges s 1 ∨ (toNode b, toNode a) ∈ layerEdges s 1) := by
+    simp only [hasUnd, hasDir, Bool.or_eq_true, Bool.and_eq_true, decide_eq_true_eq,
+      List.contains_eq_mem] at hab
+    rcases hab with ⟨⟨h1, h2⟩, h3⟩ | ⟨⟨h1, h2⟩, h3⟩
+    · exact ⟨h1, h2, Or.inl h3⟩
+    · exact ⟨h2, h1, Or.inr h3⟩
+  obtain ⟨ha0, hb0, hmem⟩ := hfacts
+  have hna : toNode a ∈ s.nodes ∧ toNode b ∈ s.nodes := by
+    rcases hmem with hm | hm
+    · exact hEU _ hm
+    · exact ⟨(hEU _ hm).2, (hEU _ hm).1⟩
+  exact ⟨ha0, hb0, (h.1.1 (toNode a).1 (toNode a).2 hna.1).1, (h.1.1 (toNode b).1 (toNode b).2 hna.2).1, hmem⟩
+
+theorem hasUnd_sortTime {E : List Edge} {u v : TNode} (h : hasUnd E u v = true) :
+    hasUnd E (sortTime u v).1 (sortTime u v).2 = true ∧ ¬ (sortTime u v).2.2 < (sortTime u v).1.2 := by
+  unfold sortTime
+  split
+  · rename_i hlt
+    refine ⟨?_, by simp only; omega⟩
+    simp only [hasUnd] at h ⊢
+    rw [Bool.or_comm]; exact h
+  · rename_i hlt
+    exact ⟨h, hlt⟩
+
 /-- **atomic**: a raising `orient_uncertain_edge` leaves the graph exactly as it was -/
 theorem orient_atomic {s : St} (h : CInv s) (u v : TNode) (hr : (orientCpdag s u v).2 = true) :
     (orientCpdag s u v).1 = s := by
